@@ -199,7 +199,7 @@ func main() {
 					}
 					return true
 				}
-				c.Outcome(st.lastOutcome)
+				c.Outcome(f.Name() + ":" + st.lastOutcome)
 				c.Res.Validated++
 				if n >= 2 && !sampled[f.Name()] && f.RealChunks(seq) >= 2 {
 					sampled[f.Name()] = true
